@@ -55,7 +55,10 @@ VALID_COUNTS = {
 
 BAD_LATTICE_ARGS = ['malformed', 'three,-1:5', '{c},', '{c},0:4,0:4,0:4,0:4',
                     '{c},0:6.022e23', '{c},-6.022e23:0', '{c},1:2:3',
-                    '{c},a:b', '{c},0-4']
+                    '{c},a:b', '{c},0-4',
+                    # lower bound above the upper bound
+                    '{c},1:-1,1:-1', '{c},1:0', '{c},2:-2,0:0,0:0',
+                    '{c},0:1,3:2']
 
 
 @st.composite
